@@ -83,6 +83,10 @@ type c07Node struct {
 	V    int
 	Next *c07Node
 }
+type c07SelfRefChan struct {
+	Next *c07SelfRefChan
+	C    chan int
+}
 type c07Embedded struct {
 	*c07Struct
 	Z int
@@ -124,6 +128,8 @@ func c07Template(name string) interface{} {
 		return (*big.Int)(nil)
 	case "nested-struct":
 		return c07Nested{}
+	case "self-ref-with-chan":
+		return c07SelfRefChan{}
 	}
 	panic("harness: template " + name)
 }
@@ -277,17 +283,30 @@ func c07Call(j entryJob) (outcome, detail string) {
 			v, err = ce.UnmarshalCTE(bytes.NewReader(doc), tmpl, cfg)
 		case "cte-unmarshal-doc":
 			v, err = ce.UnmarshalFromCTEDocument(doc, tmpl, cfg)
-		case "cbe-unmarshaler":
-			u := ce.NewCBEUnmarshaler(cfg)
-			v, err = u.UnmarshalFromDocument(doc, tmpl)
-			if err == nil {
-				v, err = u.Unmarshal(bytes.NewReader(doc), tmpl)
+		case "cbe-unmarshaler", "cte-unmarshaler":
+			// one instance, several calls: the template, a pointer to it, a slice of pointers to
+			// it - whether or not an earlier call failed
+			var u ce.Unmarshaler
+			if j.Entry == "cbe-unmarshaler" {
+				u = ce.NewCBEUnmarshaler(cfg)
+			} else {
+				u = ce.NewCTEUnmarshaler(cfg)
 			}
-		case "cte-unmarshaler":
-			u := ce.NewCTEUnmarshaler(cfg)
-			v, err = u.UnmarshalFromDocument(doc, tmpl)
-			if err == nil {
-				v, err = u.Unmarshal(bytes.NewReader(doc), tmpl)
+			tmpls := []interface{}{tmpl}
+			if tmpl != nil {
+				t := reflect.TypeOf(tmpl)
+				tmpls = append(tmpls, reflect.Zero(reflect.PtrTo(t)).Interface(), reflect.MakeSlice(reflect.SliceOf(reflect.PtrTo(t)), 0, 0).Interface(), tmpl)
+			}
+			for _, tm := range tmpls {
+				var e1, e2 error
+				v, e1 = u.UnmarshalFromDocument(doc, tm)
+				v, e2 = u.Unmarshal(bytes.NewReader(doc), tm)
+				if err == nil {
+					err = e1
+				}
+				if err == nil {
+					err = e2
+				}
 			}
 		default:
 			panic("harness: entry " + j.Entry)
@@ -585,6 +604,39 @@ func c07Inputs(c *Check) map[string][][]byte {
 		}
 		in["random"] = append(in["random"], b)
 	}
+	// documents shaped like the struct templates (field names in snake case): matching, mistyped,
+	// with forward, backward and cyclic references into typed fields; each also truncated and as CBE
+	for _, t := range []string{
+		`{"a"=1 "b"=["x" "y"] "c"={"k"=1.5}}`,
+		`{"a"=$x "b"=["x"] "c"=&x:{"k"=1.5}}`,
+		`{"a"=&x:1 "b"=[$x] "c"={"k"=$x}}`,
+		`{"b"=$y "c"=&y:{"k"=1}}`,
+		`{"a"="str" "b"=1 "c"=[1]}`,
+		`{"a"=[1 2] "b"={"k"=1} "c"="x"}`,
+		`{"p"=$x "m"=&x:{"k"=1}}`,
+		`{"p"=$x "s"=&x:{"a"=1}}`,
+		`{"l"=[$x &x:{"a"=1}] "i"=$x}`,
+		`{"i"=&x:[1 $x]}`,
+		`{"p"=&x:{"a"=1 "b"=$x}}`,
+		`{"s"={"a"=$z} "p"={"c"=&z:{"k"=2}}}`,
+		`{"next"={"next"=$n "c"=1} "c"=&n:2}`,
+		`{"next"=&n:{"next"=$n}}`,
+		`[$x &x:{"a"=1} $x]`,
+		`[&x:[$x]]`,
+		`&x:{"a"=1 "p"=$x}`,
+	} {
+		d := []byte("c0\n" + t)
+		in["for-template"] = append(in["for-template"], d)
+		for _, cut := range []int{len(d) - 1, len(d) * 2 / 3, len(d) / 2} {
+			in["for-template"] = append(in["for-template"], d[:cut])
+		}
+		if r := convertCTEtoCBE(d, cfg); r.Err == nil && r.Panicked == nil {
+			in["for-template"] = append(in["for-template"], r.Out)
+			for _, cut := range []int{len(r.Out) - 1, len(r.Out) * 2 / 3} {
+				in["for-template"] = append(in["for-template"], r.Out[:cut])
+			}
+		}
+	}
 	in["wrong-format"] = [][]byte{[]byte("c0\n\x81\x00\x01"), append([]byte{0x81, 0x00}, []byte("c0\n1")...), []byte("{\"json\": 1}"), []byte("\xef\xbb\xbfc0\n1"), []byte("c0\r\n1")}
 	manyN := 60000
 	if thorough {
@@ -633,7 +685,10 @@ func checkC07Entries(c *Check) {
 			limit := len(members)
 			if ec.Op == "unmarshal" {
 				// the full input classes go through the nil and struct templates; other templates see a rotating subset
-				if ec.With != "nil" && ec.With != "struct" {
+				structLike := ec.With == "nested-struct" || ec.With == "self-ref-with-chan" || ec.With == "pointer" || ec.With == "map" || ec.With == "slice" || ec.With == "interface-slice"
+				if ec.Input == "for-template" && structLike {
+					// every member
+				} else if ec.With != "nil" && ec.With != "struct" {
 					if slowClass[ec.Input] && !thorough {
 						limit = 1
 					} else if limit > perClass {
